@@ -6,6 +6,8 @@ PROP = {
         "IdenaModel.Store.overlay_perm_unchanged",
         "IdenaModel.Store.overlay_perm_unchanged_run",
         "IdenaModel.Store.overlay_as_found_counterexample",
+        "IdenaModel.Store.overlay_refines_staged",
+        "IdenaModel.Store.staged_invisible",
         "IdenaModel.Store.view_isolated",
         "IdenaModel.Store.view_refines",
         "IdenaModel.Store.at_commit_self",
